@@ -1,5 +1,6 @@
 import Driver.Proto
 import PolyVerif.Model.MeshHeap
+import PolyVerif.Model.MeshPure
 
 /-!
   C01 driver.  Three kinds of request:
@@ -251,9 +252,11 @@ def appendRequest : P String := do
   expect "|"
   let b ← obsP
   let s := run EV ⟨Heap.empty, []⟩ [newMeshOf a, newMeshOf b, .append 0 1]
-  match s.pool[2]? with
-  | some r => pure (showObs (obs s.heap r))
-  | none => pure "panic"
+  -- two models must agree: the heap-level `appendCopy` read back with `obs`, and the pure `pureAppend` (append_refines)
+  match s.pool[2]?, pureAppend EV a b with
+  | some r, some p => pure (if obs s.heap r == p then showObs p else "models-disagree")
+  | none, none => pure "panic"
+  | _, _ => pure "models-disagree"
 
 def handle (op : String) (args : List String) : Option String :=
   match op with
